@@ -229,3 +229,62 @@ extern "C" void h_cleanup_contexts()
   VASSERT(g_nremoved == exp); VASSERT(v.size() == kept);
   VWITNESS(NCTX == 2 && exp == 1 && dead[0] && dead[1] && buffered[1]);
 }
+
+// ---- K7 (C20): the real _update_active_thread_contexts_cache (with the real ThreadContextManager::new_thread_context_flag
+// and for_each_thread_context over a registry laid out in static storage) followed by the real
+// _cleanup_invalidated_thread_contexts: whenever the backend refreshes its cache - e.g. because a new thread registered -
+// every registered context is in the cache afterwards, so a context whose thread has exited and whose statements were all
+// written is reclaimed by the clean-up that follows; contexts with anything pending stay.
+union TCMSlot { ThreadContextManager m; TCMSlot() {} ~TCMSlot() {} };
+static TCMSlot g_tcm;
+struct SPLayout { ThreadContext* p; void* ctrl; };             // std::shared_ptr<ThreadContext>: object pointer, control block
+static SPLayout g_sp[4];
+static_assert(sizeof(std::shared_ptr<ThreadContext>) == sizeof(SPLayout), "shared_ptr layout");
+extern "C" void h_update_cleanup()
+{
+  new (&g_bw.b._options) BackendOptions();
+  new (&g_bw.b._active_thread_contexts_cache) std::vector<ThreadContext*>();
+  bk_init_logger(0, 0);
+  ThreadContextManager* m = &g_tcm.m;
+  new (&m->_thread_contexts) std::vector<std::shared_ptr<ThreadContext>>();
+  new (&m->_spinlock) Spinlock();
+  reinterpret_cast<void**>(&g_bw.b._backend_worker_lock)[1] = m;        // BackendWorker::_thread_context_manager (a reference member)
+  bool dead[NCTX], queued[NCTX], buffered[NCTX];
+  for (uint32_t c = 0; c < NCTX; c++)
+  {
+    bk_init_context(c, 0); bk_static_ring(c);
+    queued[c] = vnd_bool(); if (queued[c]) VASSERT(bk_log(c, 0, 5));
+    buffered[c] = vnd_bool();
+    if (buffered[c]) { TransitEvent* te = teb_at(c)->back(); te->timestamp = 7; te->macro_metadata = &MD_LOG; te->logger_base = logger_at(0); teb_at(c)->push_back(); }
+    dead[c] = vnd_bool(); if (dead[c]) ctx_at(c)->mark_invalid();
+    g_sp[c].p = ctx_at(c); g_sp[c].ctrl = nullptr;
+  }
+  auto* spv = reinterpret_cast<std::shared_ptr<ThreadContext>*>(g_sp);
+  m->_thread_contexts._M_impl._M_start = spv; m->_thread_contexts._M_impl._M_finish = spv + NCTX; m->_thread_contexts._M_impl._M_end_of_storage = spv + 4;
+  // the cache before the refresh: the contexts registered earlier (a prefix); the rest registered since
+  uint32_t known = static_cast<uint32_t>(vnd_range(0, NCTX));
+  bool newflag = known < NCTX ? true : vnd_bool();                   // registering a context raises the flag
+  *reinterpret_cast<bool*>(&m->_new_thread_context_flag) = newflag;
+  auto& v = g_bw.b._active_thread_contexts_cache;
+  for (uint32_t i = 0; i < NCTX; i++) g_tcs4[i] = ctx_at(i);
+  // (without a refresh the cache is complete: written so that its size is then a constant for symbolic execution)
+  v._M_impl._M_start = g_tcs4; v._M_impl._M_finish = newflag ? g_tcs4 + known : g_tcs4 + NCTX; v._M_impl._M_end_of_storage = g_tcs4 + 4;
+  bw()._update_active_thread_contexts_cache();
+  // every registered context is cached, in registration order
+  VASSERT(v.size() == NCTX);
+  for (uint32_t i = 0; i < NCTX; i++) if (i < v.size()) VASSERT(v[i] == ctx_at(i));
+  VASSERT(!m->new_thread_context_flag());                             // the request was consumed
+  bw()._cleanup_invalidated_thread_contexts();
+  uint32_t exp = 0, kept = 0;
+  for (uint32_t c = 0; c < NCTX; c++)
+  {
+    bool reclaim = dead[c] && !queued[c] && !buffered[c];
+    uint32_t times = 0; for (uint32_t i = 0; i < 4; i++) if (i < g_nremoved && g_removed[i] == ctx_at(c)) times++;
+    VASSERT(times == (reclaim ? 1u : 0u));
+    if (reclaim) exp++;
+    else { VASSERT(kept < v.size() && v[kept] == ctx_at(c)); kept++; }
+  }
+  VASSERT(g_nremoved == exp); VASSERT(v.size() == kept);
+  vobs(known); vobs(exp);
+  VWITNESS(known < NCTX && exp >= 1);
+}
